@@ -282,7 +282,7 @@ impl Profile {
             .get(edge)
             .expect("action has been witnessed")
             .regret()
-            / self.epochs() as Utility
+            / self.epochs().max(1) as Utility
     }
     /// conditional on being in this Infoset,
     /// distributed across all its head Nodes,
